@@ -70,3 +70,25 @@ Theorem C14_reversing_in_place_refuted :
   [[EMw 0; EMw 1; EHandler]; [EMw 1; EMw 0; EHandler]; [EMw 0; EMw 1; EHandler]].
 Proof. exact reversing_in_place_refuted. Qed.
 Print Assumptions C14_reversing_in_place_refuted.
+
+(** "A middleware that does not call its successor prevents the user's handler from running" - and ONLY such a middleware
+    does: in gin, where not aborting is calling the successor, a middleware that has written to the response (flushed
+    headers, a streaming prefix) and did not abort passes on.  The wrapper's loop tests IsAborted alone, so it is the
+    sequential loop of the model after erasing the writes; a loop that also stops once something was written is refuted.
+    (cases_C14_gin ties [gin_loop template_stop] to the compiled gin wrapper with a middleware that writes.) *)
+Theorem C14_gin_loop_ignores_writes : forall ms w inner,
+  gin_loop template_stop ms w inner = seq_loop EMw (map (fun m => (fst m, erase (snd m))) ms) inner.
+Proof. exact gin_loop_is_seq_loop. Qed.
+Print Assumptions C14_gin_loop_ignores_writes.
+
+Theorem C14_gin_writers_reach_the_handler : forall ms w,
+  (forall m, In m ms -> snd m <> GAbort) ->
+  gin_loop template_stop ms w [EHandler] = map (fun m => EMw (fst m)) ms ++ [EHandler].
+Proof. exact gin_writers_reach_the_handler. Qed.
+Print Assumptions C14_gin_writers_reach_the_handler.
+
+Theorem C14_stop_when_written_refuted :
+  exists ms, (forall m, In m ms -> snd m <> GAbort)
+             /\ gin_loop stop_when_written ms false [EHandler] <> map (fun m => EMw (fst m)) ms ++ [EHandler].
+Proof. exact stop_when_written_refuted. Qed.
+Print Assumptions C14_stop_when_written_refuted.
